@@ -282,6 +282,19 @@ func VerifH_C09_normalize() {
 	}
 	url := &models.URL{Raw: u.raw}
 	var err error
+	if u.raw == "//cdn.example/lib.js" && verifrt.Choice("https-parent", 2) == 1 {
+		// a scheme-relative reference takes the scheme of the page it was found on
+		parent = &models.URL{Raw: "https://secure.example/dir/page"}
+		if err := parent.Parse(); err != nil {
+			panic(err)
+		}
+		https := verifmodel.AdaOutcome{Protocol: "https:", Hostname: "cdn.example", Host: "cdn.example", Href: "https://cdn.example/lib.js", HrefWithFr: "https://cdn.example/lib.js"}
+		verifmodel.AdaTable["//cdn.example/lib.js|https://secure.example"] = https
+		verifmodel.AdaTable["//cdn.example/lib.js|https://secure.example/dir/page"] = https
+		verifmodel.AdaTable["http://cdn.example/lib.js"] = verifmodel.AdaOutcome{Protocol: "http:", Hostname: "cdn.example", Host: "cdn.example", Href: "http://cdn.example/lib.js", HrefWithFr: "http://cdn.example/lib.js"}
+		u.canon = "https://cdn.example/lib.js"
+		verifrt.Cover("scheme-relative-under-https")
+	}
 	if u.relative {
 		verifrt.Cover("relative")
 		err = NormalizeURL(url, parent)
